@@ -45,6 +45,38 @@ pub fn exec(line: &str) -> Option<Exec> {
             e.nontrivial = s.len() >= 2;
             Some(e)
         }
+        ["hex.encoff", k, h] => {
+            // the same conversion on a slice that does not start where its allocation starts (alignment, length
+            // bookkeeping of chunked implementations)
+            let k: usize = k.parse().ok()?;
+            let b = unhex(h)?;
+            let mut buf = vec![0xa5u8; k];
+            buf.extend_from_slice(&b);
+            buf.extend_from_slice(&[0x5a; 9]);
+            let s = hexify(&buf[k..k + b.len()]);
+            let back = no_panic(|| unhexify(&s));
+            let ok = matches!(&back, Some(Ok(v)) if *v == b) && s.len() == 2 * b.len();
+            let mut e = Exec::new(format!("ok {}", hex(s.as_bytes())));
+            e.oracle_fail = if ok { None } else { Some(format!("hexify of a {}-byte slice at offset {} of its buffer gave {:?}, which does not convert back to the bytes", b.len(), k, s)) };
+            Some(e)
+        }
+        ["hex.decoff", k, h] => {
+            let k: usize = k.parse().ok()?;
+            let b = unhex(h)?;
+            let inner = String::from_utf8(b).ok()?;
+            let whole = format!("{}{}{}", "f".repeat(k), inner, "0123456");
+            let s = &whole[k..k + inner.len()];
+            let r = no_panic(|| unhexify(s));
+            let imp = match &r { None => "panic".to_string(), Some(Ok(v)) => format!("ok {}", hex(v)), Some(Err(_)) => "err".to_string() };
+            let fail = if is_even_hex(s) {
+                match &r { Some(Ok(v)) if hexify(v) == s.to_lowercase() => None, other => Some(format!("even-length hex string {:?} (a sub-slice at offset {}) -> {:?}", s, k, other)) }
+            } else {
+                match &r { Some(Err(_)) => None, None => Some(format!("malformed string {:?} panics", s)), Some(Ok(v)) => Some(format!("malformed string {:?} accepted as {:?}", s, v)) }
+            };
+            let mut e = Exec::new(imp);
+            e.oracle_fail = fail;
+            Some(e)
+        }
         _ => None,
     }
 }
@@ -131,6 +163,29 @@ pub fn generate(ctx: &mut Ctx, rep: &mut Report, emit: &mut dyn FnMut(&mut Ctx, 
             for v in variants { emit(ctx, rep, format!("cli.decode p arg {}", hex(v.as_bytes()))); }
         }
     }
+    // long inputs (block-wise / word-wise implementations): one foreign character at EVERY position of valid hex
+    // text of 64..256 characters, and every length 0..=200 at every buffer offset 1..=15
+    let mut r3 = Rng::new(ctx.seed ^ 0x1818);
+    let foreign = ['+', '-', ' ', 'g', 'G', 'x', '.', ':', '/', '@', '`', '\0', '_'];
+    for len in [64usize, 66, 96, 128, 130, 256] {
+        let base: Vec<u8> = (0..len).map(|_| b"0123456789abcdefABCDEF"[r3.below(22) as usize]).collect();
+        for p in 0..len {
+            for (i, c) in foreign.iter().enumerate() {
+                if !ctx.tier_thorough && (p + i) % 3 != 0 && p % 16 != 0 && p % 16 != 15 { continue; }
+                let mut s = base.clone(); s[p] = *c as u8;
+                emit(ctx, rep, format!("hex.dec {}", hex(&s)));
+            }
+        }
+    }
+    for len in 0..=200usize {
+        let b = r3.bytes(len);
+        for k in 1..=15usize {
+            if !ctx.tier_thorough && (len + k) % 4 != 0 && len % 8 > 1 { continue; }
+            emit(ctx, rep, format!("hex.encoff {} {}", k, hex(&b)));
+            emit(ctx, rep, format!("hex.decoff {} {}", k, hex(hex(&b).as_bytes())));
+        }
+    }
+    rep.exhaustive_parts.push("one foreign character at every position of 64..256-character hex text; hexify/unhexify on sub-slices of every length <= 200 at buffer offsets 1..15".into());
     // random
     let mut rng = Rng::new(ctx.seed ^ 0x18);
     let n = ctx.n(20_000, 1_000_000);
